@@ -13,7 +13,7 @@ PAKE_V1 = "json_get(json_of(body), 'pake_v1')"
 WORMHOLE_DERIVE = dict(
     params={"purpose": "str", "length": "int"}, self_fields={"_key": "opt[bytes]"}, returns="bytes",
     requires=[WC.HKDF_RANGE.format("length")],
-    raises_exactly={"NoKeyError": "not self._key"},
+    raises_exactly={"NoKeyError": "not self._key"}, replay=WC.PURE_REPLAY,
     ensures=[("function-of-key-purpose-length", "result == hkdf(self._key, length, utf8(nfc(purpose)))"),
              ("length", "len(result) == length")],
     modifies=[])
@@ -61,6 +61,7 @@ CONTRACTS = WC.owned(PROP) + [
              internal_ensures=[("started-once", "n_events('spake2.start') == 1 and event_arg('spake2.start', 0, 0) == self._sp.msg1")],
              note="the SPAKE2 password is exactly to_bytes(code), the symmetric identity exactly to_bytes(appid)"),
     Contract("wormhole/_key.py:_SortedKey.got_pake", props=[PROP], params={"body": "bytes"}, self_fields={"_side": "str"},
+             replay={"driver": "trace_replay:run"},
              raises={"UnicodeDecodeError": "not json_parses(body)",
                      "UnicodeEncodeError": f"not is_ascii(json_str({PAKE_V1}))",
                      "ValueError": f"not json_parses(body) or not is_hex(ascii(json_str({PAKE_V1})))",
